@@ -461,26 +461,32 @@ def shrink(mod, plan, cls, time_box=20.0, viol=None):
         cand = mod.narrow(cur, viol)
         if cand is not None and _violates(mod, cand, cls) is not None:
             cur = cand
-    # 1. lists the module declares shrinkable by deletion (closed under deletion)
-    for field in getattr(mod, 'DDMIN_FIELDS', ('ops',)):
-        if isinstance(cur.get(field), list) and cur[field]:
-            def test(sub, field=field):
-                cand = dict(cur)
-                cand[field] = sub
-                return _violates(mod, cand, cls) is not None
-            cur[field] = ddmin(list(cur[field]), test, deadline)
-    # 2. module-specific simplifications, greedy to a fixpoint
     simplify = getattr(mod, 'simplify', None)
-    progress = simplify is not None
-    while progress and time.monotonic() < deadline:
-        progress = False
-        for cand in simplify(cur):
-            if time.monotonic() >= deadline:
-                break
-            if _violates(mod, cand, cls) is not None:
-                cur = cand
-                progress = True
-                break
+    changed = True
+    while changed and time.monotonic() < deadline:
+        changed = False
+        # 1. lists the module declares shrinkable by deletion (plans are closed under deletion)
+        for field in getattr(mod, 'DDMIN_FIELDS', ('ops',)):
+            if isinstance(cur.get(field), list) and cur[field]:
+                def test(sub, field=field):
+                    cand = dict(cur)
+                    cand[field] = sub
+                    return _violates(mod, cand, cls) is not None
+                before = len(cur[field])
+                cur[field] = ddmin(list(cur[field]), test, deadline)
+                changed = changed or len(cur[field]) < before
+        # 2. module-specific simplifications, greedy to a fixpoint; then delete again
+        progress = simplify is not None
+        while progress and time.monotonic() < deadline:
+            progress = False
+            for cand in simplify(cur):
+                if time.monotonic() >= deadline:
+                    break
+                if _violates(mod, cand, cls) is not None:
+                    cur = cand
+                    progress = True
+                    changed = True
+                    break
     return cur
 
 
